@@ -46,6 +46,9 @@ def _pair_events(args):
             ppb, db = _mk_parent(kb, seqlen)
             a = E.make_loc(ab, ast, ppa, force_compound=rnd.random() < 0.2)
             b = E.make_loc(bb, bst, ppb, force_compound=rnd.random() < 0.2)
+            if rnd.random() < 0.25:  # operands that have already been used: no answer may depend on earlier questions
+                E.warm(a)
+                E.warm(b)
             if flagmode == "all":
                 ks = list(range(8))
             else:
@@ -76,6 +79,8 @@ def _unary_events(args):
         k = rnd.choice([0, 1, 2])
         par, da = _mk_parent(k, seqlen)
         a = E.make_loc(blocks, st, par, force_compound=rnd.random() < 0.3)
+        if rnd.random() < 0.25:
+            E.warm(a)
         exts = [(0, 0), (1, 0), (0, 1), (2, 3), (-1, 0), (0, -1), (seqlen, 0), (0, seqlen)]
         ev.append(["un", [blocks, st], da,
                    _locval(a.gaps_location), _locval(a.optimize_blocks),
